@@ -37,8 +37,14 @@ func fn(m map[int]int) {
 		println("deleted")
 	}
 
+	if _, ok := m[next()]; ok {
+		delete(m, next())
+	}
+
 	delete := func(a, b interface{}) {}
 	if _, ok := m[0]; ok {
 		delete(m, 0)
 	}
 }
+
+func next() int { return 0 }
